@@ -436,6 +436,10 @@ fn case(tier: Tier, rng: &mut Rng, rep: &mut Report) {
                             rep.violate(&format!("C20|CompassApp::run|response-route-differs|{rf}"), format!("the application's response renders another route than the plugin on the same query: {} vs {}", strip(&r["route"]).to_string().chars().take(400).collect::<String>(), strip(direct).to_string().chars().take(400).collect::<String>()), replay);
                         }
                     }
+                    // D7 an identifier is attached for a matched vertex only: a query without destination has no destination identifier
+                    if !with_dest && r.get("destination_vertex_uuid").map(|v| !v.is_null()).unwrap_or(false) {
+                        rep.violate("C20|CompassApp::run|identifier-without-vertex", format!("D7 the query has no destination, the response carries destination_vertex_uuid {}", r["destination_vertex_uuid"]), replay);
+                    }
                     if with_dest && (r["origin_vertex_uuid"].as_str() != Some(uuid_for(&spec, o).as_str()) || r["destination_vertex_uuid"].as_str() != Some(uuid_for(&spec, d).as_str())) {
                         rep.violate("C20|CompassApp::run|wrong-identifier", format!("D7 identifiers {} / {} for vertices {o} / {d}", r["origin_vertex_uuid"], r["destination_vertex_uuid"]), replay);
                     }
